@@ -1,14 +1,132 @@
-//! theta family: to be written (see /verif/AGENT_GUIDE.md).
-use crate::{Family, Ob, PANIC};
+//! theta family: replays update / hook / trim / reset / compact / dump operations on the real
+//! `ThetaSketch` (see /verif/coq/theories/Corr/Theta.v for the operation and observation formats).
+use datasketches::common::ResizeFactor;
+use datasketches::theta::ThetaSketch;
 
-pub struct Fam;
+use crate::{fbits, Family, Ob, PANIC};
+
+pub struct Fam {
+    sk: ThetaSketch,
+    theta0: u64,
+}
+
+fn build(cfg: &[i128]) -> ThetaSketch {
+    let rf = match cfg[1] {
+        0 => ResizeFactor::X1,
+        1 => ResizeFactor::X2,
+        2 => ResizeFactor::X4,
+        _ => ResizeFactor::X8,
+    };
+    let p = f64::from_bits(cfg[2] as u64) as f32;
+    ThetaSketch::builder()
+        .lg_k(cfg[0] as u8)
+        .resize_factor(rf)
+        .sampling_probability(p)
+        .seed(cfg[3] as u64)
+        .build()
+}
+
+impl Fam {
+    fn state(&self) -> Ob {
+        vec![
+            self.sk.num_retained() as i128,
+            self.sk.theta64() as i128,
+            self.sk.verif_lg_cur_size() as i128,
+        ]
+    }
+}
 
 impl Family for Fam {
-    fn new(_cfg: &[i128]) -> Self {
-        Fam
+    fn new(cfg: &[i128]) -> Self {
+        let sk = build(cfg);
+        let theta0 = sk.theta64();
+        Fam { sk, theta0 }
     }
 
-    fn step(&mut self, _code: i64, _a: &[i128]) -> Ob {
-        vec![PANIC]
+    fn step(&mut self, code: i64, a: &[i128]) -> Ob {
+        match code {
+            1 => {
+                self.sk.update(a[0] as i64);
+                self.state()
+            }
+            2 => {
+                self.sk.verif_insert_hash(a[0] as u64);
+                self.state()
+            }
+            3 => {
+                let x: u128 = ((a[1] as u64 as u128) << 64) | (a[0] as u64 as u128);
+                self.sk.update(x);
+                self.state()
+            }
+            4 => {
+                self.sk.trim();
+                self.state()
+            }
+            5 => {
+                self.sk.reset();
+                self.state()
+            }
+            6 => {
+                let c = self.sk.compact(a[0] != 0);
+                let in_table_order = c.is_ordered() || c.iter().eq(self.sk.iter());
+                let mut ob = vec![
+                    c.is_empty() as i128,
+                    c.is_ordered() as i128,
+                    c.theta64() as i128,
+                    fbits(c.estimate()),
+                    c.seed_hash() as i128,
+                    self.sk.is_empty() as i128,
+                    fbits(self.sk.estimate()),
+                    in_table_order as i128,
+                    c.num_retained() as i128,
+                ];
+                let mut es: Vec<u64> = c.iter().collect();
+                if !c.is_ordered() {
+                    es.sort_unstable();
+                }
+                ob.extend(es.iter().map(|e| *e as i128));
+                ob
+            }
+            7 => {
+                let mut ob = vec![
+                    self.sk.theta64() as i128,
+                    self.sk.num_retained() as i128,
+                    self.sk.verif_lg_cur_size() as i128,
+                    self.sk.is_empty() as i128,
+                    self.sk.is_estimation_mode() as i128,
+                    fbits(self.sk.estimate()),
+                    fbits(self.sk.theta()),
+                ];
+                let mut es: Vec<u64> = self.sk.iter().collect();
+                es.sort_unstable();
+                ob.extend(es.iter().map(|e| *e as i128));
+                ob
+            }
+            8 => {
+                let (lg_cur, _lg_nom, _theta, _n, raw, _empty) = self.sk.verif_table();
+                let mut ob = vec![lg_cur as i128];
+                ob.extend(raw.iter().map(|e| *e as i128));
+                ob
+            }
+            9 => {
+                let (_lg_cur, _lg_nom, theta, _n, raw, _empty) = self.sk.verif_table();
+                if theta == self.theta0 {
+                    let mut ob = vec![1];
+                    ob.extend(raw.iter().map(|e| *e as i128));
+                    ob
+                } else {
+                    vec![0]
+                }
+            }
+            10 => {
+                let ordered = a[0] != 0;
+                if ordered || self.sk.theta64() == self.theta0 {
+                    self.sk.compact(ordered).serialize().iter().map(|b| *b as i128).collect()
+                } else {
+                    vec![-1]
+                }
+            }
+            _ => vec![PANIC],
+        }
     }
 }
